@@ -654,7 +654,7 @@ def gen_history_renames(rng, n_renames=4):
     return hist
 
 
-def gen_history_arrivals(rng, n=3):
+def gen_history_arrivals(rng, n=3, rename_prob=0.8):
     """Directed family: directories WITH content arrive (moved in from outside, or created as a nested burst) and are renamed
     again right away - before the reader/emitter has looked at them (allowed by the pacing condition: 'a directory may be
     renamed again right after it arrived'); the emitter then walks a path that no longer exists."""
@@ -681,7 +681,7 @@ def gen_history_arrivals(rng, n=3):
             do("rename", o, a)
         else:
             do("mkdir", a)
-        if rng.random() < 0.8:
+        if rng.random() < rename_prob:
             do("rename", a, b)               # right after it arrived
         hist.append(["drain"])
         if rng.random() < 0.5:
